@@ -133,4 +133,29 @@ def reduce_history(case):
             yield c
 
 
-SUBS = [Sub("histories", check, strategy=strategy, reduce=reduce_history, examples={"quick": 2500, "thorough": 100000})]
+def sizes(tier):
+    from ..e1 import wide
+    return [{"history": [{"wide": sp, "stack_limit": None}]} for sp in wide.specs(["fan-sync-first"], tier == "quick")]
+
+
+def check_sizes(case, ctx):
+    from ..e1 import wide
+    expanded = {"history": [{"prog": wide.expand(e["wide"]), "stack_limit": e["stack_limit"]} for e in case["history"]]}
+    out = check(expanded, _Quiet(ctx, case))
+    return [(s, "%r: %s" % (case["history"][0]["wide"], m[:600])) for s, m in out]
+
+
+class _Quiet(object):
+    def __init__(self, ctx, case):
+        self.ctx = ctx
+        self.case = case
+
+    def label(self, *a, **k):
+        pass
+
+    def nontrivial(self, case, on=True):
+        self.ctx.label("wide:fan-sync-first")
+        self.ctx.nontrivial(self.case)
+
+SUBS = [Sub("histories", check, strategy=strategy, reduce=reduce_history, examples={"quick": 2500, "thorough": 100000}),
+        Sub("sizes", check_sizes, enumerate=sizes)]
